@@ -782,10 +782,10 @@ def strat_hist_(draw):
     init = list(cur)
     ops = []
     for _ in range(draw(st.integers(1, 14))):
-        kind = draw(st.sampled_from(["ins", "ins", "ins", "ins", "rem", "rem", "add", "sort", "insat"]))
+        kind = draw(st.sampled_from(["ins", "ins", "ins", "ins", "rem", "rem", "add", "sort", "sort", "insat", "set", "retime", "reverse"]))
         if kind == "ins" and cur != sorted(cur):
             kind = "sort"
-        if kind == "rem" and not cur:
+        if kind in ("rem", "set", "retime") and not cur:
             kind = "ins"
         if len(cur) >= 40 and kind != "sort":
             kind = "rem"
@@ -807,6 +807,19 @@ def strat_hist_(draw):
             i = draw(st.integers(0, len(cur)))
             ops.append(["insat", i, q])
             cur.insert(i, q)
+        elif kind == "set":
+            q = _instant(draw, cur)
+            i = _index(draw, len(cur))
+            ops.append(["set", i, q, draw(st.integers(0, 1))])
+            cur[i] = q
+        elif kind == "retime":
+            q = _instant(draw, cur)
+            i = _index(draw, len(cur))
+            ops.append(["retime", i, q])
+            cur[i] = q
+        elif kind == "reverse":
+            ops.append(["reverse"])
+            cur.reverse()
         else:
             ops.append(["sort"])
             cur.sort()
@@ -843,8 +856,8 @@ def body_hist(case):
 
     for step, op in enumerate(case["ops"]):
         kind = op[0]
-        if kind in ("ins", "add", "insat"):
-            q = op[2] if kind == "insat" else op[1]
+        if kind in ("ins", "add", "insat", "set"):
+            q = op[2] if kind in ("insat", "set") else op[1]
             new = _mk_obs(uid, _ms(t0i, q), z)
             rec = (id(new), float(uid), _ms(t0i, q), z)
             uid += 1
@@ -896,7 +909,40 @@ def body_hist(case):
             tr.insertObs(new, i)
             model.insert(i, rec)
             cls.add("insat")
+        elif kind == "set":
+            # an observation replaced in place: track[i] = obs or setObs(i, obs) (no re-ordering is documented)
+            if not model:
+                cls.add("set-skipped-empty")
+                continue
+            i = op[1] % len(model)
+            if len(op) > 3 and op[3]:
+                tr.setObs(i, new)
+            else:
+                tr[i] = new
+            model[i] = rec
+            cls.add("set")
+        elif kind == "retime":
+            # the timestamp of an observation of the track replaced in place (obs.timestamp = ...)
+            if not model:
+                cls.add("retime-skipped-empty")
+                continue
+            i = op[1] % len(model)
+            tr.getObs(i).timestamp = _ot(_ms(t0i, op[2]), z)
+            model[i] = (model[i][0], model[i][1], _ms(t0i, op[2]), z)
+            cls.add("retime")
+        elif kind == "reverse":
+            # reverse() returns a reversed COPY (new Obs objects): the history continues on it
+            tr = tr.reverse()
+            got = view()
+            want = [r[1:] for r in model[::-1]]
+            if [g[1:] for g in got] != want:
+                raise Violation("history-reverse-wrong", "step %d: reverse of q=%s gives q=%s" % (step, qv(model), qv(got)))
+            keep.extend(tr.getObsList())
+            model = got
+            cls.add("reverse")
+            continue
         elif kind == "sort":
+            was_sorted_before = any(c in cls for c in ("sort-of-unsorted", "sort-of-sorted"))
             tr.sort()
             got = view()
             if sorted(got) != sorted(model):
@@ -904,6 +950,8 @@ def body_hist(case):
             if not is_sorted(got):
                 raise Violation("sort-not-sorted", "step %d: sort of q=%s gives q=%s" % (step, qv(model), qv(got)))
             cls.add("sort-of-unsorted" if not is_sorted(model) else "sort-of-sorted")
+            if was_sorted_before and not is_sorted(model):
+                cls.add("sorted-then-disordered-then-sorted-again")
             model = got
             continue
         else:
